@@ -28,7 +28,7 @@ RULE = ("world kind in {SpaceWorld, DiscreteWorld, LineWorld, GridWorld}, extent
 COMPONENTS = {"real": ["ECAgent.Environments.SpaceWorld.add_agent / remove_agent / move / move_to", "DiscreteWorld / LineWorld / "
                        "GridWorld constructors", "PositionComponent"],
               "stub": ["agents are plain ECAgent agents created by the harness"]}
-PROBES = ["multi_lap_wrap", "negative_wrap", "clamp_both_sides_one_move", "placement_on_hi", "zero_extent_axis",
+PROBES = ["continuous_world_off_the_dyadic_lattice", "saturated_at_an_edge_off_the_lattice", "multi_lap_wrap", "negative_wrap", "clamp_both_sides_one_move", "placement_on_hi", "zero_extent_axis",
           "reject.oob", "reject.move_to_oob", "reject.no_position", "move_to_accepted", "continuous_world", "grid_world", "model_lifecycle_op", "wrap_mode_switched", "defaults_used_for_omitted_coordinates", "huge_integer_move_in_grid", "integer_move_beyond_the_decimal_conversion_limit",
           "agent_with_position_subclass_component", "agent_is_an_environment", "ops_from_inside_a_timestep", "deprecated_camelcase_spelling",
           "one_ulp_outside_a_continuous_world", "history_continued_on_a_copy"]
@@ -111,7 +111,17 @@ def generate(rng, tier):
         if o_.get("op") in ("add", "move_to") and rng.random() < 0.05:
             o_["ulp"] = [rng.randrange(3), rng.choice(["hi", "hi", "lo"])]
     extras = gen_extras(rng, n, lambda ax: rng.randint(0, max(ref.hi(ax), 0)) if ref.positive(ax) else 0)
-    return {"world": world, "n": n, "ops": ops, "extras": extras}
+    floaty = None
+    if rng.random() < 0.15:
+        # a non-wrapping continuous world whose extents, positions and moves are arbitrary doubles (7.3, 19.99 ...), not the
+        # dyadic lattice of the main history: "old + delta saturated to the world's edges" is then still exact - the double
+        # sum where it fits, exactly the edge where it does not
+        ext = [rng.choice([7.3, 19.99, 9.1, 0.7 * rng.randint(2, 40), rng.uniform(1, 30), 12.7]) for _ in range(2)] + [rng.choice([0.0, 0.0, 5.3])]
+        ags = [[rng.uniform(0, e) if e else 0.0 for e in ext] for _ in range(rng.randint(1, 4))]
+        mv = [[rng.randrange(len(ags))] + [rng.choice([rng.uniform(-3, 3), rng.uniform(-40, 40), 100.0, -100.0, 0.1, 1e-9, e_ - 1e-12]) for e_ in ext]
+              for _ in range(rng.randint(3, 25))]
+        floaty = {"ext": ext, "agents": ags, "moves": mv}
+    return {"world": world, "n": n, "ops": ops, "extras": extras, "floaty": floaty}
 
 
 def sparse(args, on):
@@ -123,7 +133,43 @@ def sparse(args, on):
     return args
 
 
+def float_arm(fl, ctx):
+    from ECAgent.Environments import SpaceWorld
+    m = Model(seed=1)
+    ext = [float(e) for e in fl["ext"]]
+    env = SpaceWorld(m, ext[0], ext[1], ext[2], wrap_env=False)
+    m.environment = env
+    ctx.probe("continuous_world_off_the_dyadic_lattice")
+    from ECAgent.Core import Agent
+    agents, pos = [], []
+    for i, p in enumerate(fl["agents"]):
+        a = Agent(f"f{i}", m)
+        p = [float(c) for c in p]
+        ctx.expect_ok("add", env.add_agent, a, p[0], p[1], p[2])
+        agents.append(a)
+        pos.append(p)
+    for k, dx, dy, dz in fl["moves"]:
+        k = int(k) % len(agents)
+        d = [float(dx), float(dy), float(dz)]
+        ctx.expect_ok("move", env.move, agents[k], d[0], d[1], d[2])
+        got = get_pos(agents[k])
+        for ax in range(3):
+            if ext[ax] <= 0:
+                continue
+            want = min(max(pos[k][ax] + d[ax], 0.0), ext[ax])
+            ctx.check(0.0 <= got[ax] <= ext[ax], "outside-world",
+                      lambda: f"extent {ext[ax]!r}: agent at {pos[k][ax]!r} moved by {d[ax]!r} rests at {got[ax]!r}")
+            ctx.check(got[ax] == want, "move-not-exact",
+                      lambda: f"extent {ext[ax]!r}: {pos[k][ax]!r} + {d[ax]!r} saturated is {want!r}, the agent rests at {got[ax]!r}")
+            if want in (0.0, ext[ax]):
+                ctx.probe("saturated_at_an_edge_off_the_lattice")
+            pos[k][ax] = got[ax]
+    ctx.event("floaty", [get_pos(a) for a in agents])
+
+
 def execute(sc, ctx):
+    if sc.get("floaty"):
+        float_arm(sc["floaty"], ctx)
     m = Model(seed=20260927)
     ref = RefWorld(sc["world"])
     env = make_world(m, sc["world"])
